@@ -485,6 +485,41 @@ func runChild(opFile, traceFile, inject string) runResult {
 	return res
 }
 
+// materialise copies the scenario's template to dst; with Links every file is moved to dst+".persist" and replaced
+// by a symbolic link.
+func (sc *scenario) materialise(dst string) error {
+	if err := copyDir(filepath.Join(sc.dir, "template"), dst); err != nil {
+		return err
+	}
+	if !sc.Links {
+		return nil
+	}
+	persist, err := filepath.Abs(dst + ".persist")
+	if err != nil {
+		return err
+	}
+	if err := os.MkdirAll(persist, 0o755); err != nil {
+		return err
+	}
+	infos, err := ioutil.ReadDir(dst)
+	if err != nil {
+		return err
+	}
+	for _, fi := range infos {
+		if !fi.Mode().IsRegular() {
+			continue
+		}
+		from, to := filepath.Join(dst, fi.Name()), filepath.Join(persist, fi.Name())
+		if err := os.Rename(from, to); err != nil {
+			return err
+		}
+		if err := os.Symlink(to, from); err != nil {
+			return err
+		}
+	}
+	return nil
+}
+
 func copyDir(src, dst string) error {
 	if err := os.MkdirAll(dst, 0o755); err != nil {
 		return err
@@ -623,6 +658,11 @@ type scenario struct {
 	WantNewEnt *entityJ // intended new entity (save-entity), nil for delete-entity
 	EntName    string   // name of the entity written / deleted
 	WantVer    string   // transport: expected "version" after a complete run
+
+	// Links: every key file of the storage directory is a symbolic link to a regular file in another directory (a
+	// deployment that keeps the files on a persistent partition).  What the link becomes is the implementation's
+	// choice; the value read back through the API after a kill is not.
+	Links bool
 
 	dir       string
 	template  snapshot
@@ -1391,6 +1431,30 @@ func main() {
 	} else {
 		r.Count("no_second_file_system_available", 1)
 	}
+	// the same writes on a storage directory whose key files are symbolic links
+	{
+		var more []*scenario
+		picked := map[string]int{}
+		for _, sc := range scs {
+			if sc.Op.TmpDir != "" || sc.Class == "new-key" || sc.Class == "first-start" {
+				continue
+			}
+			lim := 1
+			if sc.Kind == "set" {
+				lim = r.Pick(3, 12)
+			}
+			if picked[sc.Kind] >= lim {
+				continue
+			}
+			picked[sc.Kind]++
+			c := *sc
+			c.ID = sc.ID + "+key-files-are-symbolic-links"
+			c.Links = true
+			more = append(more, &c)
+		}
+		scs = append(scs, more...)
+		r.Count("scenarios_with_symbolic_links", len(more))
+	}
 	for i, sc := range scs {
 		sc.ID = fmt.Sprintf("%03d-%s", i, sc.ID) // unique: the id names the scenario's directory
 	}
@@ -1483,7 +1547,7 @@ func main() {
 					return
 				}
 				bdir := filepath.Join(sc.dir, "base")
-				if err := copyDir(filepath.Join(sc.dir, "template"), bdir); err != nil {
+				if err := sc.materialise(bdir); err != nil {
 					sc.skipped = "copy: " + err.Error()
 					return
 				}
@@ -1562,7 +1626,7 @@ func main() {
 				var why string
 				for attempt := 0; attempt < 2; attempt++ {
 					pdir := filepath.Join(sc.dir, fmt.Sprintf("p%02d-%d", pt.Index, attempt))
-					if err := copyDir(filepath.Join(sc.dir, "template"), pdir); err != nil {
+					if err := sc.materialise(pdir); err != nil {
 						why = "copy: " + err.Error()
 						continue
 					}
